@@ -142,6 +142,11 @@ func ZZFullInterface(name string, epoch time.Time) Interface {
 	raw.Managed, raw.OtherConfig = zzNondetBool(name+".managed"), zzNondetBool(name+".other")
 	dl, _ := zzValueKey(name + ".default_lifetime")
 	raw.DefaultLifetime = &dl
+	raw.ReachableTime, _ = zzValueKey(name + ".reachable_time")
+	raw.RetransmitTimer, _ = zzValueKey(name + ".retransmit_timer")
+	hop := zzNondetInt(name + ".hop_limit")
+	raw.HopLimit = &hop
+	raw.Preference = []string{"", "low", "high"}[zzNondetChoice(name+".preference", 3)]
 	v1, _ := zzValueKey(name + ".p1.valid")
 	v2, _ := zzValueKey(name + ".p3.valid")
 	pf3, _ := zzValueKey(name + ".p3.preferred")
